@@ -174,6 +174,57 @@ func projectTop(m proto.Message, paths []string) proto.Message {
 	return proto.Clone(out.Interface())
 }
 
+// projectPaths is the independent projection for masks with paths one level down ("a.b"): a stays present if it was,
+// holding only the requested sub-fields; for a repeated message field every element is projected; a plain "a" next to
+// "a.b" keeps all of a.
+func projectPaths(m proto.Message, paths []string) proto.Message {
+	src := m.ProtoReflect()
+	out := src.New()
+	fds := src.Descriptor().Fields()
+	whole := map[string]bool{}
+	subs := map[string][]protoreflect.Name{}
+	var order []string
+	for _, p := range paths {
+		top, sub, nestedPath := strings.Cut(p, ".")
+		if !contains(order, top) {
+			order = append(order, top)
+		}
+		if !nestedPath {
+			whole[top] = true
+		} else {
+			subs[top] = append(subs[top], protoreflect.Name(sub))
+		}
+	}
+	sub := func(v protoreflect.Message, names []protoreflect.Name) protoreflect.Message {
+		o := v.New()
+		for _, n := range names {
+			if fd := v.Descriptor().Fields().ByName(n); fd != nil && v.Has(fd) {
+				o.Set(fd, v.Get(fd))
+			}
+		}
+		return o
+	}
+	for _, top := range order {
+		fd := fds.ByName(protoreflect.Name(top))
+		if fd == nil || !src.Has(fd) {
+			continue
+		}
+		switch {
+		case whole[top] || fd.Message() == nil || fd.IsMap():
+			out.Set(fd, src.Get(fd))
+		case fd.IsList():
+			l := out.Mutable(fd).List()
+			sl := src.Get(fd).List()
+			for i := 0; i < sl.Len(); i++ {
+				l.Append(protoreflect.ValueOfMessage(sub(sl.Get(i).Message(), subs[top])))
+			}
+		default:
+			out.Set(fd, protoreflect.ValueOfMessage(sub(src.Get(fd).Message(), subs[top])))
+		}
+	}
+	return proto.Clone(out.Interface())
+}
+
 // significantlyDifferent: differs in a non-float field, or by at least 1.0 in a float field (top level and one level down).
 func significantlyDifferent(a, b protoreflect.Message, depth int) bool {
 	fds := a.Descriptor().Fields()
@@ -384,13 +435,41 @@ func stackRun(w *World) {
 						mask = append(mask, f)
 					}
 				}
+				nested := t.Flag(1, 3)
+				if nested {
+					// top-level fields and paths one level down into message fields; a field together with one of its own
+					// sub-paths is left out (what that combination selects is a question about masks, not about this stack)
+					var nm []string
+					for _, x := range randomPaths(tr.resource, p) {
+						top, _, isSub := strings.Cut(x, ".")
+						clash := false
+						for _, y := range nm {
+							ytop, _, ySub := strings.Cut(y, ".")
+							if ytop == top && (isSub != ySub) {
+								clash = true
+							}
+						}
+						if !clash {
+							nm = append(nm, x)
+						}
+					}
+					mask = nm
+				}
 				got, err := doGet(mask, true)
 				fullv, err2 := doGet(nil, false)
+				if nested && err != nil && err2 == nil {
+					task.Note("get nested mask %v rejected: %v", mask, status.Code(err))
+					continue // whether a path through this kind of field is acceptable is not this property's business
+				}
 				if err != nil || err2 != nil {
 					bad("get-failed", fmt.Sprintf("Get(mask %v) -> %v, Get -> %v", mask, err, err2))
 					return
 				}
-				if want := projectTop(fullv, mask); !proto.Equal(got, want) {
+				if !proto.Equal(fullv, cur) {
+					bad("read-changed-state", fmt.Sprintf("nothing was written, but after a Get with read mask %v the full Get changed from %v to %v", mask, cur, fullv))
+					return
+				}
+				if want := projectPaths(fullv, mask); !proto.Equal(got, want) {
 					bad("read-mask", fmt.Sprintf("Get with read mask %v returned %v, the projection of the full Get %v is %v", mask, got, fullv, want))
 					return
 				}
